@@ -10,6 +10,7 @@ are given in iteration order (descending for `desc`).
   nodes not <asc|desc> <xs> <lo> <hi>               -> ok <lids>
   nodes range <asc|desc> <lo> <hi>                  -> ok <lids>
   ortree <asc|desc> <l1;l2;...>                     -> ok <lids>
+  narrow <asc|desc> <lo> <hi> <posting ascending>   -> ok <lids>   (EvalTree.narrow: the posting list cut to the borders)
   rangego <asc|desc> <lo> <hi> <fuel>               -> ok <values> <ended 0|1>   (nodeRange with Go's int/uint32)
   borders <from> <to> <ids mid:rid,...>             -> ok <minLID> <maxLID>
   eval <asc|desc> <lo> <hi> <toks> <query>          -> ok <lids>
@@ -123,6 +124,10 @@ def step (line : String) : String :=
     | some rev, some lo, some hi, some fuel =>
       let r := RangeGo.drain rev (RangeGo.newRange rev lo hi).1 fuel (RangeGo.newRange rev lo hi).2
       s!"ok {fmtNats r.1} {fmtBool r.2}"
+    | _, _, _, _ => "bad-op"
+  | ["narrow", dir, lo, hi, xs] =>
+    match parseRev dir, lo.toNat?, hi.toNat?, natList? xs with
+    | some rev, some lo, some hi, some xs => s!"ok {fmtNats (narrow rev lo hi xs)}"
     | _, _, _, _ => "bad-op"
   | ["ortree", dir, ls] =>
     match parseRev dir, (splitList ls ";").mapM (natList? ·) with
